@@ -73,3 +73,11 @@ def read_text(path):
 def short(x, n=300):
     s = x if isinstance(x, str) else repr(x)
     return s if len(s) <= n else s[: n - 3] + "..."
+
+
+def vary_name(rng, default):
+    """file names as users have them: several dots, blanks, dashes (the extension is kept)"""
+    if rng.random() < 0.7:
+        return default
+    stem, ext = default.split(".", 1)
+    return rng.choice([f"{stem}.v1.2.{ext}", f"my {stem}.{ext}", f"{stem}-1_x.{ext}", f"{stem}.{ext}.copy.{ext}"])
